@@ -60,6 +60,13 @@ long vt_update(const void *id, unsigned ks, unsigned vs, unsigned cap, unsigned 
         if (!m->e[i].used) { m->e[i].used = 1; memcpy(m->e[i].key, key, ks); memcpy(m->e[i].val, val, vs); m->count++; return 0; }
     fprintf(stderr, "MACHINERY: model table full\n"); exit(2);
 }
+/* update with the kernel's flag semantics: BPF_ANY 0, BPF_NOEXIST 1 (-EEXIST when present), BPF_EXIST 2 (-ENOENT when absent) */
+long vt_update_f(const void *id, unsigned ks, unsigned vs, unsigned cap, unsigned type, const void *key, const void *val, unsigned long long flags) {
+    void *p = vt_lookup(id, ks, vs, cap, type, key);
+    if ((flags & 3) == 1 && p) return -17;
+    if ((flags & 3) == 2 && !p) return -2;
+    return vt_update(id, ks, vs, cap, type, key, val);
+}
 long vt_delete(const void *id, unsigned ks, unsigned vs, unsigned cap, unsigned type, const void *key) {
     struct vt_map *m = vt_get(id, ks, vs, cap, type);
     for (int i = 0; i < NENT; i++)
@@ -83,6 +90,9 @@ struct world {
     struct thread th[MAXT]; int nth;
     unsigned policy_bits; int toggles_left; int toggle_ep; int aborts_left;
     uint16_t next_sport;
+    int reuse;                    /* every connect gets source port 40001 and nobody consumes the records (the caller
+                                     gave up before the agent accepted; the next socket got the same ephemeral port) */
+    int had_before; unsigned char before[20]; /* record under the source port just before tcp_connect ran */
     uint16_t diverted_ports[MAXT * MAXC]; int ndiv;
     char trace[96]; int tlen;
 };
@@ -185,7 +195,10 @@ static void check_connect(struct world *w, struct thread *th, struct conn *c, ui
         }
         if (sport) {
             unsigned char k[8]; audit_key_of(sport, k);
-            if (vt_lookup(&audit_map, 8, 20, 200, 9, k)) {
+            unsigned char *now = vt_lookup(&audit_map, 8, 20, 200, 9, k);
+            /* with source-port reuse a record left by an earlier diverted connect may still be there: only a record
+               that appeared or changed during this connect was produced by it */
+            if (now && !(w->reuse && w->had_before && memcmp(now, w->before, 20) == 0)) {
                 snprintf(what, sizeof what, "a connect that was not diverted (tgid %u, source port %u) produced an audit record", th->id.tgid, sport);
                 violation(th->is_agent ? "agent-connect-recorded" : "unprotected-connect-recorded", what, w);
             }
@@ -214,7 +227,8 @@ static int step_thread(struct world *w, int t, int abort_now) {
             th->pc++;
             return 1;
         }
-        uint16_t sport = w->next_sport++;
+        uint16_t sport = w->reuse ? 40001 : w->next_sport++;
+        { unsigned char k0[8]; audit_key_of(sport, k0); unsigned char *b = vt_lookup(&audit_map, 8, 20, 200, 9, k0); w->had_before = b != NULL; if (b) memcpy(w->before, b, 20); }
         struct probe_sock sk; memset(&sk, 0, sizeof sk);
         sk.__sk_common.skc_family = 2; sk.__sk_common.skc_daddr = th->ctx.user_ip4; sk.__sk_common.skc_dport = (uint16_t)th->ctx.user_port; sk.__sk_common.skc_num = sport;
         struct pt_regs regs; memset(&regs, 0, sizeof regs); regs.rdi = (unsigned long)&sk;
@@ -246,7 +260,7 @@ static uint64_t canon(struct world *w) {
     /* map contents as unordered sets, thread states, policy, counters */
     for (int m = 0; m < 4; m++) { uint64_t s = 0; for (int i = 0; i < NENT; i++) if (w->maps[m].e[i].used) s += fnv(&w->maps[m].e[i], sizeof(struct vt_entry)) * 31 + m; h ^= s * (m + 7); }
     for (int t = 0; t < w->nth; t++) { h = h * 1315423911ULL + fnv(&w->th[t].pc, sizeof(int)); h = h * 31 + fnv(&w->th[t].ctx, sizeof(struct bpf_sock_addr)); h = h * 31 + w->th[t].matched_at_connect4; h = h * 31 + w->th[t].straddled; }
-    h = h * 31 + w->policy_bits; h = h * 31 + w->toggles_left; h = h * 31 + w->aborts_left; h = h * 31 + w->next_sport;
+    h = h * 31 + w->policy_bits; h = h * 31 + w->toggles_left; h = h * 31 + w->aborts_left; h = h * 31 + w->next_sport; h = h * 31 + w->reuse;
     return h;
 }
 static int seen_state(uint64_t h) { for (long i = 0; i < nh; i++) if (hashes[i] == h) return 1; hashes[nh++] = h; return 0; }
@@ -322,8 +336,9 @@ int main(int argc, char **argv) {
                 if (ids[a].tgid == ids[b].tgid && ids[a].tid == ids[b].tid) continue;
                 for (int c3 = (nth == 3 ? 1 : nids - 1); c3 < nids; c3 += 2) {
                     if (nth == 3 && (c3 == a || c3 == b)) continue; /* two threads never share tgid and tid */
-                    for (int d1 = 0; d1 < nd; d1 += dstep) for (int d2 = 0; d2 < nd; d2 += dstep) for (int d3 = 0; d3 < (ncon == 2 ? nd : 1); d3 += (mode == 1 && thorough ? 1 : 3)) for (int tg = 0; tg < (toggles ? 3 : 1); tg++) {
+                    for (int d1 = 0; d1 < nd; d1 += dstep) for (int d2 = 0; d2 < nd; d2 += dstep) for (int d3 = 0; d3 < (ncon == 2 ? nd : 1); d3 += (mode == 1 && thorough ? 1 : 3)) for (int tg = 0; tg < (toggles ? 3 : 1); tg++) for (int reuse = 0; reuse < (mode == 1 ? 2 : 1); reuse++) {
                         struct world w; memset(&w, 0, sizeof w);
+                        w.reuse = reuse;
                         memset(vt_maps, 0, sizeof vt_maps);
                         vt_update(&skip_process_map, 4, 4, 10, 1, skip_key, skip_val);
                         set_policy(policies[pi]);
